@@ -1,7 +1,8 @@
 #!/usr/bin/env python3
 """Source-structure extractor (DESIGN.md 4.6): inventory of the explicit panic sites
 (`unwrap()`, `expect(`, `panic!`, `unreachable!`, `-= `, slice/index expressions with a
-computed bound) of the non-test handler code, per function.  Compared with
+computed bound - `x[a..]`, `x[..b]`, `x[a..b]`; the full range `x[..]` and slice PATTERNS `[a, b, ..]` cannot panic and
+are not counted) of the non-test handler code, per function.  Compared with
 /verif/tables/panic_sites.json: every site in that table is represented in the Lean model by a
 branch that sets `World.panicked` (proved unreachable under Inv) or is argued unreachable in
 DESIGN.md.  A new or moved site is a panic the model does not know about.
@@ -13,7 +14,7 @@ SRC = ["/repo/src/state/mod.rs", "/repo/src/state/structs.rs", "/repo/src/state/
        "/repo/src/command.rs", "/repo/src/utils.rs", "/repo/src/config.rs"]
 TABLE = os.path.join(os.path.dirname(os.path.dirname(os.path.abspath(__file__))), "tables", "panic_sites.json")
 PATS = [("unwrap", r"\.unwrap\(\)"), ("expect", r"\.expect\("), ("panic", r"\bpanic!"), ("unreachable", r"\bunreachable!"),
-        ("sub_assign", r"-=\s"), ("slice", r"\[[^\]\n]*\.\.[^\]\n]*\]"), ("index", r"\w\[[a-z_]\w*( [-+] \w+)?\]")]
+        ("sub_assign", r"-=\s"), ("slice", r"(?<=[\w\)\]])\[(?!\.\.\])[^\]\n]*\.\.[^\]\n]*\]"), ("index", r"\w\[[a-z_]\w*( [-+] \w+)?\]")]
 
 
 def strip(s):
